@@ -1111,9 +1111,35 @@ func callBuiltin(caller *frame, callpos token.Pos, fn *ssa.Builtin, args []value
 			panic(engineErr(fmt.Sprintf("cap: illegal operand: %T", x)))
 		}
 
-	case "min":
-		return foldLeft(min, args)
-	case "max":
+	case "min", "max":
+		anySym := false
+		for _, a := range args {
+			if _, ok := a.(sv); ok {
+				anySym = true
+			}
+		}
+		if anySym {
+			k := valKind(args[0])
+			_, signed := kindInfo(k)
+			acc := scalarTerm(args[0], k)
+			for _, a := range args[1:] {
+				t := scalarTerm(a, k)
+				var lt *Term
+				if signed {
+					lt = mkCmp(opSlt, t, acc)
+				} else {
+					lt = mkCmp(opUlt, t, acc)
+				}
+				if fn.Name() == "max" {
+					lt = mkNot(mkOr(lt, mkEq(t, acc)))
+				}
+				acc = mkIte(lt, t, acc)
+			}
+			return termToVal(acc, k)
+		}
+		if fn.Name() == "min" {
+			return foldLeft(min, args)
+		}
 		return foldLeft(max, args)
 
 	case "real":
